@@ -1001,7 +1001,10 @@ _T_PATHS = ["//a", "/r/a[2]/string()", "count(//a) + 1", "//a[. = 'x']/following
 _T_REGEX = ["matches('aBé', '^\\p{Ll}\\p{Lu}\\p{L}$')", "replace('a1b22', '\\d+', '#')", "tokenize('a, b;c', '[,;]\\s*')",
             "matches('x', '[\\p{IsBasicLatin}-[a-w]]')", "matches('٣', '\\p{Nd}')", "replace('Hello', '\\P{Lu}', '')",
             "matches('a_b', '^\\w+$')", "matches('a b', '\\S\\s\\S')", "matches('一', '\\p{IsCJKUnifiedIdeographs}')",
-            "matches('ab', '^[\\i-[:]][\\c-[:]]*$')", "tokenize('a1b', '\\p{N}')", "matches('Å', '\\p{Lu}')"]
+            "matches('ab', '^[\\i-[:]][\\c-[:]]*$')", "tokenize('a1b', '\\p{N}')", "matches('Å', '\\p{Lu}')",
+            "matches('a_b1', '^[\\w]+$')", "replace('a1b22', '[\\d]+', '#')", "tokenize('a b,c', '[\\s,]+')",
+            "matches('a-b', '[^\\w]')", "matches('x:y', '^[\\i][\\c]*$')", "replace('a b', '[\\S]', 'x')",
+            "matches('é9', '^[\\w-[\\d]][\\d]$')"]
 _T_ARITH = ["1.1 + 2.2", "10 div 3", "xs:decimal('1') div 7", "round-half-to-even(2.5)", "2 * 3.5e0", "7 mod 3",
             "xs:integer('12') idiv 5", "1 idiv 0", "xs:integer('x')", "string(xs:date('2020-02-29') + xs:dayTimeDuration('P1D'))"]
 _T_COLL = ["compare('a', 'b', 'C.utf8')", "compare('b', 'a', 'POSIX')", "contains('abc', 'b', 'C')",
@@ -1036,6 +1039,7 @@ threads_case = _threads_case()
 
 
 def _child_threads(case):
+    import linecache
     import sys
     import threading
     import elementpath
@@ -1043,10 +1047,11 @@ def _child_threads(case):
     cfg = dict(case['cfg'])
     S = _child_setup(cfg)
     try:
-        # real lock back in place (no proxy): genuine blocking behaviour between threads
+        # the threaded phase runs on the real lock (genuine blocking between threads); the sequential phase keeps
+        # the proxy so that a lock leaked by an earlier job is seen at once instead of blocking the child
         import elementpath.collations as colls
-        colls._locale_collate_lock = S.proxy.inner
         locale.setlocale = S.real_setlocale
+        seq_viol = []
         T, reps = case['T'], case['reps']
         P = _parser_class('3.1')
         shared = _new_root(cfg.get('lxml', False))
@@ -1063,19 +1068,25 @@ def _child_threads(case):
                 sels.append(box[0] if box else out)
             return sels
 
-        def run_jobs(selectors, root, reps, sink):
+        def run_jobs(selectors, root, reps, sink, sequential_phase=False):
             for _ in range(reps):
                 for sel in selectors:
                     out = sel if isinstance(sel, list) else _outcome(lambda: sel.select(root))[0]
                     sink.append(out[:2] if out[0] != 'escape' else out)
+                    if sequential_phase and S.proxy.locked():
+                        seq_viol.append(['lock-held', 'unlocked', 'locked after ' + getattr(sel, 'path', '?')])
+                        S.proxy.force_release()
 
         def sequential():
             res = []
             for t in range(T):
                 root = shared if case['shared_root'] else _new_root(cfg.get('lxml', False))
                 sels = build(t)
+                if S.proxy.locked():
+                    seq_viol.append(['lock-held', 'unlocked', 'locked after building selectors'])
+                    S.proxy.force_release()
                 sink = []
-                run_jobs(sels, root, reps, sink)
+                run_jobs(sels, root, reps, sink, True)
                 res.append(sink)
             return res
 
@@ -1096,44 +1107,61 @@ def _child_threads(case):
 
             old = sys.getswitchinterval()
             sys.setswitchinterval(1e-6)
+            colls._locale_collate_lock = S.proxy.inner
             try:
                 ths = [threading.Thread(target=work, args=(t,), daemon=True) for t in range(T)]
                 for th in ths:
                     th.start()
                 deadline = time.monotonic() + 30
-                for th in ths:
-                    th.join(max(0.0, deadline - time.monotonic()))
+                stuck, blocked_polls = None, 0
+                while any(th.is_alive() for th in ths) and time.monotonic() < deadline:
+                    ths[0].join(0.05) if ths[0].is_alive() else time.sleep(0.05)
+                    # state inspection: every live thread sits on the `.acquire(` line of CollationManager.__enter__
+                    # while the lock is held -> nobody is left who could release it
+                    frames = sys._current_frames()
+                    where = []
+                    for th in ths:
+                        if th.is_alive():
+                            fr = frames.get(th.ident)
+                            if fr is None:
+                                where.append('?')
+                                continue
+                            fn = fr.f_code.co_filename.replace('\\', '/')
+                            at = fn.rsplit('/elementpath/', 1)[-1] + ':' + fr.f_code.co_name
+                            if '.acquire(' not in linecache.getline(fr.f_code.co_filename, fr.f_lineno):
+                                at += ':running'
+                            where.append(at)
+                    locked = S.proxy.inner.locked() if hasattr(S.proxy.inner, 'locked') else None
+                    if where and locked and all(x == 'collations.py:__enter__' for x in where):
+                        blocked_polls += 1
+                        if blocked_polls >= 20:
+                            stuck = {'where': where, 'locked': locked}
+                            break
+                    else:
+                        blocked_polls = 0
+                if stuck is None and any(th.is_alive() for th in ths):
+                    stuck = {'where': where, 'locked': locked, 'undecided': True}
             finally:
                 sys.setswitchinterval(old)
-            alive = [th for th in ths if th.is_alive()]
-            stuck = None
-            if alive:
-                frames = sys._current_frames()
-                where = []
-                for th in alive:
-                    fr = frames.get(th.ident)
-                    where.append((fr.f_code.co_filename.replace('\\', '/').rsplit('/elementpath/', 1)[-1] + ':' + fr.f_code.co_name)
-                                 if fr is not None else '?')
-                stuck = {'where': where, 'locked': S.proxy.inner.locked() if hasattr(S.proxy.inner, 'locked') else None}
+                colls._locale_collate_lock = S.proxy
             if errs:
                 raise HarnessError('thread body failed:\n' + errs[0])
             return res, stuck
 
         before = _snapshot(S)
-        if case['order'] == 'threads-first':
-            thr, stuck = threaded()
-            after_thr = _snapshot(S)
-            if stuck:
-                return {'stuck': stuck}
+        if case['order'] == 'sequential-first':
             seq = sequential()
-        else:
-            seq = sequential()
-            thr, stuck = threaded()
-            after_thr = _snapshot(S)
-            if stuck:
-                return {'stuck': stuck}
+        thr, stuck = threaded()
+        after_thr = _snapshot(S)
+        if stuck:
+            return {'stuck': stuck}
         after_thr['lock'] = S.proxy.inner.locked() if hasattr(S.proxy.inner, 'locked') else False
-        return {'seq': seq, 'thr': thr, 'viol': _state_violations(before, after_thr)}
+        if after_thr['lock']:
+            S.proxy.inner.release()
+        if case['order'] == 'threads-first':
+            _restore(S, before)
+            seq = sequential()
+        return {'seq': seq, 'thr': thr, 'viol': _state_violations(before, after_thr), 'seq_viol': seq_viol[:3]}
     finally:
         _child_cleanup(S)
 
@@ -1150,7 +1178,7 @@ def judge_threads(case, rec: Recorder | None = None) -> list[Disc]:
     res = r['ok']
     if 'stuck' in res:
         w = res['stuck']['where']
-        if res['stuck']['locked'] and all(x == 'collations.py:__enter__' for x in w):
+        if res['stuck']['locked'] and not res['stuck'].get('undecided') and all(x == 'collations.py:__enter__' for x in w):
             discs.append(Disc('C19/threads/deadlock-on-collation-lock', 'all threads finish',
                               f'{len(w)} threads blocked in CollationManager.__enter__ with the lock held and no owner running'))
         elif rec is not None:
@@ -1159,6 +1187,8 @@ def judge_threads(case, rec: Recorder | None = None) -> list[Disc]:
     else:
         for kind, exp, obs in res['viol']:
             discs.append(Disc(f'C19/{kind}/threads', exp, obs, 'after all threads joined'))
+        for kind, exp, obs in res['seq_viol'][:1]:
+            discs.append(Disc(f'C19/{kind}/threads-sequential-phase', exp, obs, 'sequential evaluation of the same jobs'))
         for t, (a, b) in enumerate(zip(res['seq'], res['thr'])):
             if a != b:
                 n = len(case['jobs'][t])
